@@ -41,7 +41,11 @@ QuotedEscape == {QUOTE, BSL}                               \* Symbol::quoted_fro
 
 WOctet(b, esc) == IF b \in esc THEN <<BSL, b>> ELSE IF ~Printable(b) THEN Dec3(b) ELSE <<b>>
 WLabel(l, dv) == Concat([i \in 1..Len(l) |-> WOctet(l[i], LabelEscape(dv))])
-WQuoted(s) == <<QUOTE>> \o Concat([i \in 1..Len(s) |-> WOctet(s[i], QuotedEscape)]) \o <<QUOTE>>
+QInner(s) == Concat([i \in 1..Len(s) |-> WOctet(s[i], QuotedEscape)])
+WQuoted(s) == <<QUOTE>> \o QInner(s) \o <<QUOTE>>
+\* CharStr::display_unquoted (Symbol::from_octet): no delimiters
+UnquotedEscape == {SP, QUOTE, BSL, SEMI}
+WUnquoted(s) == Concat([i \in 1..Len(s) |-> WOctet(s[i], UnquotedEscape)])
 
 RECURSIVE JoinWith(_, _)
 JoinWith(ps, sep) == IF Len(ps) = 0 THEN <<>> ELSE IF Len(ps) = 1 THEN ps[1]
@@ -70,13 +74,15 @@ Cmt(t) == [k |-> "cmt", t |-> t]
 
 HexByte(b) == LET h(v) == IF v < 10 THEN 48 + v ELSE 87 + v IN <<h(b \div 16), h(b % 16)>>   \* lower case
 
+\* RFC 3597: \# <length> <two hex digits per octet>
+GenericWords(data) == <<<<BSL, HASH>>, DecDigits(Len(data))>> \o [i \in 1..Len(data) |-> HexByte(data[i])]
+
 WRdata(rd, kind, dv) ==
   IF rd.t = 16 THEN <<Open>> \o [i \in 1..Len(rd.strs) |-> Tok(WQuoted(rd.strs[i]))] \o <<Close>>
   ELSE IF rd.t = 13 THEN <<Open, Tok(WQuoted(rd.cpu)), Cmt(<<99, 112, 117>>), Tok(WQuoted(rd.os)), Cmt(<<111, 115>>), Close>>
   ELSE IF rd.t \in NameTypes THEN <<Tok(WName(rd.name, kind, dv))>>
   ELSE IF rd.t = 15 THEN <<Open, Tok(DecDigits(rd.pref)), Cmt(<<112, 114, 101, 102>>), Tok(WName(rd.name, kind, dv)), Close>>
-  ELSE <<Tok(<<BSL, HASH, SP>> \o DecDigits(Len(rd.data))
-             \o Concat([i \in 1..Len(rd.data) |-> <<SP>> \o HexByte(rd.data[i])]))>>
+  ELSE <<Tok(JoinWith(GenericWords(rd.data), <<SP>>))>>     \* one token with spaces inside
 
 Write(r, kind, dv) ==
   <<Tok(WName(r.owner, kind, dv)), Tok(DecDigits(r.ttl)), Tok(WClass(r.class)), Tok(WType(r.rd.t))>>
@@ -85,11 +91,14 @@ Write(r, kind, dv) ==
 \* --- the three FormatWriters and fmt::Display ------------------------------
 Kinds == {"simple", "tabbed", "multiline", "display"}
 
+Nl == [k |-> "nl"]           \* FormatWriter::newline: "end the current record and start a new line"
+
 RECURSIVE RenderFrom(_, _, _, _, _)
 \* first: no token on this line yet; depth: open blocks
 RenderFrom(items, i, kind, first, depth) ==
-  IF i > Len(items) THEN <<LF>>
+  IF i > Len(items) THEN <<>>
   ELSE LET it == items[i] IN
+    IF it.k = "nl" THEN <<LF>> \o RenderFrom(items, i + 1, kind, TRUE, depth) ELSE
     IF it.k = "tok" THEN
        (IF first THEN <<>> ELSE IF kind = "tabbed" /\ depth = 0 THEN <<TAB>> ELSE <<SP>>) \o it.t
        \o RenderFrom(items, i + 1, kind, FALSE, depth)
@@ -104,7 +113,9 @@ RenderFrom(items, i, kind, first, depth) ==
        THEN <<TAB, SEMI, SP>> \o it.t \o <<LF, SP, SP>> \o RenderFrom(items, i + 1, kind, TRUE, depth)
        ELSE RenderFrom(items, i + 1, kind, first, depth)
 
-Render(items, kind) == RenderFrom(items, 1, kind, TRUE, 0)
+RenderBody(items, kind) == RenderFrom(items, 1, kind, TRUE, 0)
+\* none of the writers ends the line of a single record: the line feed is added
+Render(items, kind) == RenderBody(items, kind) \o <<LF>>
 WText(r, kind, dv) == Render(Write(r, kind, dv), kind)
 
 \* --- the record as the reader reports it --------------------------------
@@ -126,4 +137,101 @@ ReadBack(text, origin, rdv) == ReadAll(text, origin, -1, rdv)
 
 \* the property, for one record, one kind, one origin
 RoundTrip(r, kind, origin, dv) == ReadBack(WText(r, kind, dv), origin, {}) = Expected(r)
+\* ======================================================================
+\* Zones: several records in one file, read by a *configured* reader.
+\* The reader is a state machine across entries (remembered class, last
+\* TTL, $TTL, last owner, origin: ZoneFile.tla's entry machine); the writers
+\* state every field of every record, so whatever the reader remembers must
+\* not show in what it returns.
+\*
+\* Two ways to write a zone:
+\*   "cat"  every record through a writer of its own (display_zonefile(kind)
+\*          or fmt::Display, kinds may differ), a line feed after each;
+\*   "fmt"  all records through ONE FormatWriter (a ZonefileFmt impl for the
+\*          zone that calls FormatWriter::newline after every record).
+\* Reader configuration: origin (set_origin), dclass (set_default_class, -1
+\* none), allow (Zonefile::allow_invalid: RFC 1035 5.2 checks off).
+ZoneKinds == {"simple", "tabbed", "multiline"}          \* the FormatWriters ("display" has no newline)
+WZoneCat(rs, ks, dv) == Concat([i \in 1..Len(rs) |-> WText(rs[i], ks[i], dv)])
+WZoneFmt(rs, kind, dv) == RenderBody(Concat([i \in 1..Len(rs) |-> Write(rs[i], kind, dv) \o <<Nl>>]), kind)
+WZone(rs, ks, mode, dv) == IF mode = "fmt" THEN WZoneFmt(rs, ks[1], dv) ELSE WZoneCat(rs, ks, dv)
+
+ReaderCfg(origin, dclass, allow) == [origin |-> origin, dclass |-> dclass, allow |-> allow]
+DefaultCfg(origin) == ReaderCfg(origin, -1, FALSE)
+ReadCfg(text, cfg, rdv) ==
+  LET m0 == RdInit(cfg.origin, cfg.dclass)
+      m == [m0 EXCEPT !.en.requireValid = ~cfg.allow]
+  IN Outcome(FeedAll(m, text, 1, rdv), rdv)
+
+\* What the property demands of a zone, stated without the reader machine:
+\* every record comes back, in order.  The one exception is the documented
+\* RFC 1035 5.2 check of the strict reader ("all RRs in the file should have
+\* the same class"): the class it remembers is the default class if one was
+\* set, else the class of the first record; the first record of another
+\* class ends the reading with an error, the records before it are returned.
+RECURSIVE FirstOtherClass(_, _, _)
+FirstOtherClass(rs, c, i) == IF i > Len(rs) THEN 0 ELSE IF rs[i].class # c THEN i ELSE FirstOtherClass(rs, c, i + 1)
+ExpectedZone(rs, cfg) ==
+  LET k == IF cfg.allow \/ rs = <<>> THEN 0
+           ELSE FirstOtherClass(rs, IF cfg.dclass # -1 THEN cfg.dclass ELSE rs[1].class, 1)
+      n == IF k = 0 THEN Len(rs) ELSE k - 1
+  IN [entries |-> [i \in 1..n |-> AsEntry(rs[i])], err |-> k # 0]
+
+ZoneRoundTrip(rs, ks, mode, cfg, dv) == ReadCfg(WZone(rs, ks, mode, dv), cfg, {}) = ExpectedZone(rs, cfg)
+
+\* ======================================================================
+\* The token route: record data handed to the scanners as a list of tokens
+\* (base::scan::IterScanner over strings, ZoneRecordData::scan): the second
+\* Scanner of the library.  A token's text is read by Symbol::from_chars
+\* (same escapes as the zone-file tokenizer, no delimiters, no quotes).
+RECURSIVE SymsOfFrom(_, _, _)
+SymsOfFrom(t, i, acc) ==
+  IF i > Len(t) THEN [ok |-> TRUE, syms |-> acc]
+  ELSE IF t[i] # BSL THEN SymsOfFrom(t, i + 1, Append(acc, t[i]))
+  ELSE IF i + 1 > Len(t) THEN [ok |-> FALSE, syms |-> acc]
+  ELSE IF IsDigit(t[i + 1]) THEN
+       IF i + 3 > Len(t) \/ ~IsDigit(t[i + 2]) \/ ~IsDigit(t[i + 3]) THEN [ok |-> FALSE, syms |-> acc]
+       ELSE LET v == (t[i + 1] - 48) * 100 + (t[i + 2] - 48) * 10 + (t[i + 3] - 48)
+            IN IF v > 255 THEN [ok |-> FALSE, syms |-> acc] ELSE SymsOfFrom(t, i + 4, Append(acc, 512 + v))
+  ELSE IF t[i + 1] < 32 \/ t[i + 1] > 126 THEN [ok |-> FALSE, syms |-> acc]
+  ELSE SymsOfFrom(t, i + 2, Append(acc, 256 + t[i + 1]))
+SymsOf(t) == SymsOfFrom(t, 1, <<>>)
+
+\* the record-data tokens the writer produces, quotes taken off:
+\* [t |-> text, q |-> was quoted]
+RdTokens(rd, kind, dv) ==
+  LET u(t) == [t |-> t, q |-> FALSE]  q(t) == [t |-> t, q |-> TRUE] IN
+  IF rd.t = 16 THEN [i \in 1..Len(rd.strs) |-> q(QInner(rd.strs[i]))]
+  ELSE IF rd.t = 13 THEN <<q(QInner(rd.cpu)), q(QInner(rd.os))>>
+  ELSE IF rd.t \in NameTypes THEN <<u(WName(rd.name, kind, dv))>>
+  ELSE IF rd.t = 15 THEN <<u(DecDigits(rd.pref)), u(WName(rd.name, kind, dv))>>
+  ELSE LET w == GenericWords(rd.data) IN [i \in 1..Len(w) |-> u(w[i])]
+
+\* reading them: the record-data scanners of ZoneFile.tla on the symbols
+\* (no origin: the token route knows absolute names only)
+ReadTokens(rtype, toks) ==
+  LET sy == [i \in 1..Len(toks) |-> SymsOf(toks[i].t)]
+      items == [i \in 1..Len(toks) |-> [k |-> "tok", q |-> toks[i].q, sp |-> TRUE, syms |-> sy[i].syms, p0 |-> 0, nx |-> SP]]
+  IN IF \E i \in 1..Len(toks) : ~sy[i].ok THEN [err |-> TRUE]
+     ELSE LET r == Rdata(rtype, items, 1, "lf", <<>>, {})
+          IN IF r.r = "ok" THEN [rd |-> r.rd] ELSE [err |-> TRUE]
+TokenRoundTrip(r, kind, dv) == ReadTokens(r.rd.t, RdTokens(r.rd, kind, dv)) = [rd |-> RdWire(r.rd)]
+
+\* ======================================================================
+\* Field texts on their own: Display for Label / OwnedLabel read by
+\* OwnedLabel::from_str, CharStr::display_unquoted read by CharStr::from_str
+\* (both through Symbol::from_chars; nothing is a delimiter there, so the
+\* label writer's escape set is sufficient in this context).
+OctetsOfSyms(sy) ==
+  IF ~sy.ok \/ \E i \in 1..Len(sy.syms) : ~OctetOk(sy.syms[i]) THEN [err |-> TRUE]
+  ELSE [o |-> [i \in 1..Len(sy.syms) |-> SymOct(sy.syms[i])]]
+\* OwnedLabel::from_chars: an unescaped dot is not a label character; at most 63 octets
+LabelFromStr(t) ==
+  LET sy == SymsOf(t) IN
+  IF sy.ok /\ \E i \in 1..Len(sy.syms) : sy.syms[i] = DOT THEN [err |-> TRUE]
+  ELSE LET o == OctetsOfSyms(sy) IN IF "o" \in DOMAIN o /\ Len(o.o) > 63 THEN [err |-> TRUE] ELSE o
+CharStrFromStr(t) ==
+  LET o == OctetsOfSyms(SymsOf(t)) IN IF "o" \in DOMAIN o /\ Len(o.o) > 255 THEN [err |-> TRUE] ELSE o
+LabelTextRoundTrip(l, dv) == LabelFromStr(WLabel(l, dv)) = [o |-> l]
+CharStrTextRoundTrip(s) == CharStrFromStr(WUnquoted(s)) = [o |-> s]
 =============================================================================
